@@ -8,6 +8,8 @@ from __future__ import annotations
 import ast, hashlib, os, sys, importlib
 
 REPO = os.environ.get('VERIF_REPO', '/repo')
+if REPO not in sys.path:
+    sys.path.insert(0, REPO)
 
 
 class FuncSrc:
